@@ -174,6 +174,9 @@ func cmdCheck(args []string) {
 			if f.Kind == "endless_recursion" {
 				k = f.Func + "#sweep.no_endless_recursion"
 			}
+			if f.Kind == "modelled_wrapper" {
+				k = f.Func + "#sweep.body_is_what_the_assumed_model_describes"
+			}
 			bad[k] = append(bad[k], f)
 		}
 		all = append(all, &Obligation{Name: "sweep#frame.no_shared_state.all_functions", Func: "sweep", Kind: "sweep", Props: []string{prop},
